@@ -20,6 +20,7 @@ def run(chk):
     r14c(chk)
     r14d(chk)
     r14h(chk)
+    r14i(chk)
     from .c13 import r13a, r13c
 
     r13c(chk, 'R14.e')
@@ -379,3 +380,48 @@ def r14h(chk, rid='R14.h'):
     case('removeProfile(all=True)', AB + [F], 'removeProfile', {'all': True}, [])
     case('removeProfile of an unknown profile is rejected and changes nothing', AB, 'removeProfile', {'profile': 'nope'}, AB, raises='NoSuchProfileException')
     case('_resetProperties re-derives everything from the raw profiles', AB, '_resetProperties', {}, AB)
+
+
+def r14i(chk, rid='R14.i'):
+    chk.rule(rid, 'closed set of writers: the registry state (_profilesProperties, _rawProfiles, _profileNames, _usedMacros, _knownNames) is written - stored, deleted from or mutated in place - only by Profiles.__init__ and by the operations R14.h evaluates together with the methods they call; no other function of the package, inside or outside the class, touches it. With R14.h this closes the induction over histories')
+    m = chk.repo.mod(P)
+    ops = ['addProfile', 'addProfiles', 'removeProfile', '_resetProperties']
+    allowed = {'__init__'}
+    work = list(ops)
+    while work:
+        nm = work.pop()
+        if nm in allowed or not m.has(f'Profiles.{nm}'):
+            continue
+        allowed.add(nm)
+        for c in ast.walk(m.get(f'Profiles.{nm}')):
+            if isinstance(c, ast.Call) and isinstance(c.func, ast.Attribute) and isinstance(c.func.value, ast.Name) and c.func.value.id in ('self', 'Profiles', 'cls'):
+                work.append(c.func.attr)
+    MUT = ('clear', 'update', 'append', 'pop', 'remove', 'extend', 'insert', 'setdefault', 'popitem', 'sort', 'reverse', '__setitem__', '__delitem__')
+    n = 0
+    for rel, mod in chk.repo.modules.items():
+        if not rel.startswith('cssutils/') or '/tests/' in rel:
+            continue
+        for node in ast.walk(mod.tree):
+            hit = None
+            if isinstance(node, (ast.Assign, ast.AugAssign, ast.Delete)):
+                for t in (node.targets if not isinstance(node, ast.AugAssign) else [node.target]):
+                    for tt in ([t] if not isinstance(t, (ast.Tuple, ast.List)) else t.elts):
+                        while isinstance(tt, ast.Subscript):
+                            tt = tt.value
+                        if isinstance(tt, ast.Attribute) and tt.attr in STATE and tt.attr != '_defaultProfiles':
+                            hit = tt
+            elif isinstance(node, ast.Call) and isinstance(node.func, ast.Attribute) and node.func.attr in MUT:
+                tt = node.func.value
+                while isinstance(tt, ast.Subscript):
+                    tt = tt.value
+                if isinstance(tt, ast.Attribute) and tt.attr in STATE and tt.attr != '_defaultProfiles':
+                    hit = tt
+            if hit is None:
+                continue
+            n += 1
+            q = mod.qualname_of(node)
+            ok = rel == P and q.startswith('Profiles.') and q.split('.')[1] in allowed and isinstance(hit.value, ast.Name) and hit.value.id == 'self'
+            chk.ob(rid, rel, q, f'`{text(mod.enclosing_stmt(node))[:70]}` writes {hit.attr}', ok,
+                   'registry state changed outside the registry operations: verdicts then depend on whether this code ran, not on what is registered')
+    if n < 12:
+        raise AnalysisError(f'only {n} writes of registry state found')
